@@ -15,8 +15,9 @@ SPEC = {
         'old position read, content copied, tmp.seek(pos), all before self._buffer = tmp; write compares with _max_size before '
         'writing; a descriptor-level size query (os.fstat) is preceded on every path by a flushing seek/flush. T18 MultiFileReader.seek resets the current-file index and rewinds every member file (loop over the whole '
         '_fileobjs). Both concrete spooled classes define every abstract method/property of SpooledIOBase. Not decided: '
-        'equality with io.BytesIO/StringIO for every history, code-point arithmetic in seek, EncodedFile read-ahead.'),
-    'decided': ['flush before descriptor-level size query', 'observer restore of every disturbed position component', '_tell counts code points', 'rollover ordering',
+        'equality with io.BytesIO/StringIO for every history, code-point arithmetic in seek, EncodedFile read-ahead.'
+        ' T2.seek: SpooledStringIO.seek moves byte and code-point position together.'),
+    'decided': ['seek moves both components', 'flush before descriptor-level size query', 'observer restore of every disturbed position component', '_tell counts code points', 'rollover ordering',
                 'MultiFileReader.seek resets index and all files', 'abstract API completeness'],
     'declined': ['behavioural equality with io classes', 'seek arithmetic', 'codec read-ahead'],
     'trusted_base': ['io file object seek/tell semantics'], 'assumptions': [], 'exhaustive': True,
